@@ -172,6 +172,43 @@ PROPS['C24'] = {
     'technique': 'Lean 4 proof by cases over tables regenerated from the source (translator) + bit-pattern lemmas + differential correspondence check',
 }
 
+PROPS['C13'] = {
+    'title': 'Added types are exact and deduplicated',
+    'props_files': ['Orca/Props/C13.lean'],
+    'families': [{'name': 'types', 'quick_n': 2000, 'thorough_n': 200000}],
+    'rule': 'generated modules with 0-6 types (function / struct / array types over 25 value types, packed fields, concrete references, subtypes; 2/5 of the types duplicate an earlier one; '
+            'random grouping into implicit groups and explicit `rec` groups of one or two members) x 1-6 requests through the six add_*_type entry points (1/5 equal to a parsed type, 1/5 equal '
+            'to an earlier request, shared / non-final / with supertype), every request issued twice; distinct by case line; non-trivial always',
+    'trusted': COMMON_TRUST + [
+        'modelled, not verified: the value-type and storage-type conversions inside a type (carried as canonical text; covered per case by decoding the encoded section), wasm-encoder\'s layout of sub / rec / composite types, '
+        'that parse assigns type ids in section order and records groups in order (hypothesis hgroups of c13_parsed_wf, checked per case by comparing the model\'s encoded section with the decoded one)',
+    ],
+    'assumptions': ['fewer than 2^32 types', 'struct requests give one mutability flag per field (otherwise add_struct_type panics at encode, loudly)'],
+    'design_ref': 'DESIGN.md section 6, C13',
+    'level_text': 'Lean 4 theorems over the model of ModuleTypes (types, dedup map, recursion groups, new, add_type, emission by groups): for every well-formed state and every request the encoded section holds exactly the '
+                  'requested type at the returned index, an identical request returns the same index and changes nothing, existing indices and contents are untouched, the invariant is kept (so the statement extends to all sequences), '
+                  'and the state after parsing is well-formed for every hash iteration order; tied to the code by differential runs of all six entry points with a decoder-based oracle.',
+    'technique': 'Lean 4 proof (state invariant preserved by add_type; unbounded sequences by induction) + differential correspondence check',
+}
+PROPS['C04'] = {
+    'title': 'Encoding is deterministic',
+    'props_files': ['Orca/Props/C04.lean'], 'translator': True, 'processes': 3,
+    'families': [{'name': 'types', 'quick_n': 1500, 'thorough_n': 100000}, {'name': 'lower', 'quick_n': 1500, 'thorough_n': 100000},
+                 {'name': 'edit', 'quick_n': 800, 'thorough_n': 50000}, {'name': 'sem', 'quick_n': 1000, 'thorough_n': 50000}],
+    'rule': 'the cases of the types family (duplicate types + requests), of the lower and sem families (special-mode plans, whose resolution iterates hash maps) and of the edit family (re-indexing through hash maps) are each '
+            'executed in 3 separate OS processes (fresh hash seeds) and the encoded bytes compared; distinct by case line; non-trivial always',
+    'trusted': COMMON_TRUST + [
+        'translator/scan_sites.py (regular expressions: identifiers declared as HashMap / HashSet, values bound out of maps of maps, iteration methods and for-loops over them); an iteration it cannot see is not covered by the theorems - the multi-process comparison is the net for those',
+        'the actual hash seeds are sampled (3 processes per case), not enumerated',
+        'modelled, not verified: everything in encode that only looks hash maps up (id mappings, types by id)',
+    ],
+    'assumptions': ['the same input bytes and the same sequence of API calls'],
+    'design_ref': 'DESIGN.md section 6, C04',
+    'level_text': 'Lean 4 theorems: the list of hash-map iterations in /repo/src (re-extracted on every run) is the reviewed one; the dedup map built by ModuleTypes::new answers every lookup independently of the iteration order '
+                  '(for all type lists and all permutations); flushing Before- and After-bodies in either order emits the same code. Tied to the code by encoding every generated case in three processes.',
+    'technique': 'Lean 4 proof (permutation invariance) + regenerated site list (translator) + multi-process differential check',
+}
+
 SEM_RULE = ("generated terminating programs of the core fragment (0-2 i32 params, 0-2 results, globals, one memory, three callees incl. one with side effects; statements: "
             "log, local/global set, store, drop, block, counted loop, if/else, br, br_if, br_table, return, unreachable; expressions incl. value-producing block / if, loads, "
             "division that may trap, calls; nesting <= 3) x injection plans of 1-6 steps over before / after / semantic_after / block_entry / block_exit / function entry / exit "
